@@ -54,7 +54,7 @@ CORR_ONLY = ["the square root of Stationary_Values (fix 51ca844) is a parameter 
              "8 eps (2-D) x max|table| x |prefactor| (rounding of the evaluation itself); Integrate at 16 eps x sum of |terms| relative to the left "
              "abscissa; scaling by Set_Prefactor/Multiply is demanded bit-for-bit (Integrate: for factors +-2^k, otherwise 128 eps x scale)"]
 ASSUMPTIONS = ["NaN arguments are outside the statement (every `<` guard lets NaN pass): not generated",
-               "PENDING repair C08-2 (audit2 P2/P7, /tmp/fixprop-C08-2): until it is applied the Integrate clauses are judged at the scale of the stem-function difference as coded (16 eps x sum of |terms at the limits|, which does not shrink with the width of the range: vacuous for ranges much shorter than their interval), Integrate scales bit-for-bit only for factors +-2^k, and the joint-scale tables (spacing 1e-100..1e100, where pow(t,4) under/overflows) are not generated; LP_ASSUME_FIXED=C08-2 switches to the strict clauses (scale proportional to the width, bit-exact scaling from the unit prefactor, bounds at 16 eps x max|curve| x length, joint-scale tables)",
+               "repair C08-2 (audit2 P2/P7) is applied as 441bef8 and the strict Integrate clauses are on (scale proportional to the width, bit-exact scaling from the unit prefactor, bounds at 16 eps x max|curve| x length, joint-scale tables); for a rehearsal against older trees: before it the Integrate clauses were judged at the scale of the stem-function difference as coded (16 eps x sum of |terms at the limits|, which does not shrink with the width of the range: vacuous for ranges much shorter than their interval), Integrate scales bit-for-bit only for factors +-2^k, and the joint-scale tables (spacing 1e-100..1e100, where pow(t,4) under/overflows) are not generated; LP_ASSUME_FIXED=C08-2 switches to the strict clauses (scale proportional to the width, bit-exact scaling from the unit prefactor, bounds at 16 eps x max|curve| x length, joint-scale tables)",
                "std::min_element/std::max_element/std::min/std::max return an extremal element",
                "unit factors in the generated requests are powers of two (exact in double), so model and code see the same table",
                "abscissae with 0 < |x| < 1e-200 are mapped to 0 by the generator (underflow of products is not in the model); absolute slack 2^-1000"]
@@ -65,7 +65,7 @@ TRUSTED = []
 # which does not shrink with the width of the range) and the joint-scale family is not generated; with the repair applied
 # (PENDING_C08_2 = False, or LP_ASSUME_FIXED=C08-2 for a rehearsal) the scale is proportional to the width, Integrate scales
 # bit-for-bit with every factor and the bounds clause is judged at 16 eps x max|curve| x length.
-PENDING_C08_2 = True
+PENDING_C08_2 = False   # applied in /repo as 441bef8
 STRICT_INTEG = (not PENDING_C08_2) or "C08-2" in os.environ.get("LP_ASSUME_FIXED", "").split(",")
 
 K_B = 16           # class-B factor; the scale is relative to the left abscissa of each interval (fix d3bfb03); worst observed ratio in evidence 'max_ratio'
